@@ -180,7 +180,7 @@ def first_party_logic(P, f):
     return P.first_party(f) and f.unit.base not in compdb.GENERATED_UNITS
 
 
-def r_array(P, chk):
+def r_array(P, chk, only_units=None):
     rid = "R-ARRAY"
     chk.rule(rid, "every index into a fixed-size array, and every length copied into one, is bounded on all CFG paths "
                   "(interval analysis UB1 with branch refinement and threshold widening)")
@@ -222,6 +222,8 @@ def r_array(P, chk):
         if not first_party_logic(P, f) or f.unit.base in ARRAY_SKIP_UNITS:
             continue
         if f.file.endswith("uthash.h"):
+            continue
+        if only_units is not None and f.unit.base not in only_units:
             continue
         for n in f.walk():
             if n["k"] == "ArraySubscriptExpr":
@@ -282,7 +284,7 @@ def r_array(P, chk):
                 rf[0], rf[1], _fmt(res[0]), _fmt(res[1]), len(where), "; ".join(where)))
     chk.analysed[rid] = {"non_constant_index_sites_and_copies": n_sites, "constant_index_sites": n_trivial,
                          "token_type_range": list(inv) if inv else None, "kMaxTokenTypes": kmax}
-    chk.floor(rid, n_sites, 50, "array index / copy sites with a non-constant index or length")
+    chk.floor(rid, n_sites, 50 if only_units is None else 2, "array index / copy sites with a non-constant index or length")
 
 
 def _fmt(x):
